@@ -179,14 +179,14 @@ theorem outcome_no_abort (name : String) (h : name ∉ offending) (args : List V
     outcome name args ≠ .abort := by
   unfold outcome
   split
-  · split <;> simp
+  · rename_i f hf
+    have hm := lookup_mem name _ f hf
+    exact absurd (List.mem_map_of_mem (f := (·.1)) hm) h
   · split
     · rename_i f hf
       exact guarded_no_abort _ (lookup_mem name _ f hf) args
     · split
-      · rename_i f hf
-        have hm := lookup_mem name _ f hf
-        exact absurd (List.mem_map_of_mem (f := (·.1)) hm) h
+      · split <;> simp
       · simp
 
 /-! ### the offending primitives: exact abort conditions -/
